@@ -135,6 +135,17 @@ func c03(r *rep.Run) {
 				if len(h.Protocol) > 0 {
 					r.Violate("fetcher-protocol", p.Src+c.o.String(), h.Protocol[0], caseDesc(p.Src, c.o, p.Vars, vals, nil, nil))
 				}
+				// TryEval with every variable available performs the same effects
+				if c.o.Events != 0 || c.o.Undef != 0 {
+					continue
+				}
+				h.Reset()
+				gotT := h.TryEval(c.e, c.f)
+				ex++
+				if okT, wantTraceT, _ := c03Match(trees[k], p.Vars, vals, c.o.FE, got, h.Trace); !okT && drive.SameOutcome(gotT, got) {
+					r.Violate("tryeval-trace", p.Src+c.o.String(), "TryEval (every variable available) performs different fetches/operator calls than short-circuit evaluation of the Dump tree", caseDesc(p.Src, c.o, p.Vars, vals, nil,
+						map[string]interface{}{"dump_tree": trees[k].Src(), "got_trace": traceStr(h.Trace), "want_trace": traceStr(wantTraceT)}))
+				}
 			}
 			return true
 		})
